@@ -413,14 +413,17 @@ pub struct SimDisk {
     pub io: IoH,
     /// called before every read/seek/write (a scheduling point when a model scheduler owns the threads)
     pub yield_hook: Option<Arc<dyn Fn() + Send + Sync>>,
+    /// policies handed to the next clones of this reader, in order (a cloned archive handle whose own
+    /// reader is faulty); when empty a clone gets a fresh instance of this reader's policy
+    pub clone_policies: Option<Arc<Mutex<std::collections::VecDeque<Policy>>>>,
 }
 
 impl SimDisk {
     pub fn new(store: Shared, policy: Policy) -> SimDisk {
-        SimDisk { store, pos: 0, io: ioh(policy), yield_hook: None }
+        SimDisk { store, pos: 0, io: ioh(policy), yield_hook: None, clone_policies: None }
     }
     pub fn with_io(store: Shared, io: IoH) -> SimDisk {
-        SimDisk { store, pos: 0, io, yield_hook: None }
+        SimDisk { store, pos: 0, io, yield_hook: None, clone_policies: None }
     }
     pub fn pure(v: &[u8]) -> SimDisk {
         SimDisk::new(shared_from(v), Policy::Pure)
@@ -439,9 +442,10 @@ impl Clone for SimDisk {
             let g = lock(&self.io);
             (g.policy.clone(), g.budget)
         };
+        let policy = self.clone_policies.as_ref().and_then(|q| lock(q).pop_front()).unwrap_or(policy);
         let io = ioh(policy);
         set_budget(&io, budget);
-        SimDisk { store: self.store.clone(), pos: self.pos, io, yield_hook: self.yield_hook.clone() }
+        SimDisk { store: self.store.clone(), pos: self.pos, io, yield_hook: self.yield_hook.clone(), clone_policies: self.clone_policies.clone() }
     }
 }
 
